@@ -246,9 +246,12 @@ class StatsWorld(object):
         def reroute():
             from clastic.application import RerouteWSGI
             raise RerouteWSGI(target)
+        mws = [StatsMiddleware()]
         self.app = Application([('/ok', ok), ('/redir', redir), ('/raise403', raise403), ('/ret404', ret404),
                                 ('/boom', boom), ('/nb', nb), ('/reroute', reroute), ('/stats', create_stats_app()),
-                                ('/<x>', catch), POST('/only/post', ok)], middlewares=[StatsMiddleware()])
+                                ('/<x>', catch), POST('/only/post', ok)], middlewares=mws)
+        # the list stays the caller's: a middleware put into it afterwards is not the application's
+        mws.insert(0, StatsMiddleware())
         # another application in the same process with its own StatsMiddleware
         self.other = Application([('/ok', ok), ('/other', ok), ('/stats', create_stats_app())], middlewares=[StatsMiddleware()])
         self.model = {}
